@@ -240,6 +240,11 @@ class Stateful(Stateless):
         return pickle.dumps(self.state)
 
     def set_state(self, state: bytes) -> None:
+        if not state:
+            # forml itself never hands an empty state over (every preset skips falsy values): an actor that reacts to one
+            # makes a runner that does visible
+            self.state = Term('blank')
+            return
         if state:
             loaded = pickle.loads(state)
             if isinstance(loaded, tuple) and loaded and loaded[0] == 'snapshot':
